@@ -817,8 +817,10 @@ def comprehension(eng, st, node, what, frame=None):
             eng.assume(st, qforall([j, j2], z3.Implies(z3.And(0 <= j, j < j2, j2 < m), srcidx[j] < srcidx[j2]),
                        patterns=[z3.MultiPattern(srcidx[j], srcidx[j2])]))
             conds3, _ = pure_at(j)
+            src_j = getter(j)
+            trig = [pos[j]] + ([src_j.term] if src_j.term is not None else [])
             eng.assume(st, qforall([j], z3.Implies(z3.And(0 <= j, j < n, z3.And(conds3)),
-                       z3.And(0 <= pos[j], pos[j] < m, srcidx[pos[j]] == j)), patterns=[pos[j]]))
+                       z3.And(0 <= pos[j], pos[j] < m, srcidx[pos[j]] == j)), patterns=trig))
             st.ghost.setdefault("comp", {})[out.term.get_id()] = (srcidx, pos, m)
         st.heap[e_] = z3.Store(eng.harr(st, e_), out.term, arr)
         eng.set_is_tuple(st, out, False)
